@@ -323,6 +323,53 @@ CHECKS = {
              "implementation's trace; space membership of observations and actions is checked on the real side.",
         design="§5 C20", technique="Lean 4 proof (loop characterisations, history invariant by induction, functor lemma) + "
                                    "differential correspondence of the hand-written model with the real wrapper"),
+    "C06": dict(
+        text="Lean 4 theorems sar_commutes / sar_commutes_every_history / sar_inner_steps / sar_obs / sarSim_commutes: the "
+             "SAR wrapper is a functor on the abstract simulation interface (step decodes every action with the inner "
+             "agent's space, then steps; get_obs encodes; everything else forwarded; no state of its own) and for every "
+             "inner simulation (any state / action / observation type), every decoder / encoder and every call history "
+             "the wrapped trace is the inner trace under the decoded calls seen through the encoder (obsW = enc obs), the "
+             "inner simulation ends in the same state and its step received exactly the decoded action dictionaries; an "
+             "undecodable action raises before the inner simulation is touched. ravel_commutes / flatten_commutes / "
+             "flattenAction_commutes instantiate it with C04's unravel / ravel and C05's unflatten / flatten: every wrapped "
+             "action of the wrapped space decodes (ravel_dec_ok, unflatten_total), every wrapped observation is the "
+             "encoding of the inner one and a member of ravel_space / flatten_space (ravel_obs_mem, flatten_obs_mem). "
+             "C06_wrapped_lawful / _WF / _resetForgets / C06_managers_over_wrapped / C06_fresh_twin_over_wrapped: frame "
+             "conditions and reset-forgetting pass through the wrapper, so C01 and C08 hold for every manager over every "
+             "wrapped simulation. actorWrapper_commutes (+ ravelActor_commutes, exclusiveActor_commutes, the instances "
+             "ravelActor_move / _cross / _drift): ActorWrapper.process_action around any model actor is that actor on the "
+             "decoded action. exclusive_decode / exclusive_encode / exclusive_decode_injective / exclusive_bijection / "
+             "exclDims_formula: the exclusive-channel wrap_point (transcribed loop for loop, skip of the duplicate zero "
+             "vector included) is a bijection from range(dims), dims = sum n_i - m + 1, onto the members of the Dict that use "
+             "at most one channel, with unwrap_point its inverse (mixed-radix / offset arithmetic by induction over the "
+             "channel list on top of C04). unwrapped_innermost: every stack of wrappers exposes its base. Readings "
+             "(commuteEntry_reading, specExclusive_reading, specUnwrapped_reading), the model's outcomes satisfy the "
+             "judges (C06_specCommute_model, predictW_spec, C06_specExcl*_model), stub instance (C06_stub_ravel / "
+             "_flatten). Tie: side-by-side twins on the real code - the same seeded real simulation (scripted stub with "
+             "generated nested spaces, MultiCorridor) built twice, one copy wrapped by the real RavelDiscreteWrapper / "
+             "FlattenWrapper / FlattenActionWrapper alone or stacked with SuperAgentWrapper / "
+             "CommunicationHandshakeWrapper / each other; every call reaching the wrapper is mirrored on the twin with the "
+             "actions decoded by the real unravel / unflatten; wrapped values, the arguments the inner step received, the "
+             "real `in` answers and both inner state dumps must equal the model's and are judged by specCommute; every "
+             "value of wrapped action spaces up to 512 from a common state; real move and attack actors wrapped by "
+             "RavelActionWrapper / ExclusiveChannelActionWrapper against the unwrapped actor fed the decoded action on a "
+             "twin world; the exclusive encoding for every number and every at-most-one-channel action of generated Dict "
+             "spaces. Finding K6 (SARWrapper.get_obs / get_reward dropped keyword arguments: "
+             "CommunicationHandshakeWrapper over a ravel- or flatten-wrapped simulation never fused observations) was "
+             "found by this check and repaired in /repo (095c96e); its reproducers stay in the corpus.",
+        design="§5 C06", technique="Lean 4 proof (functor / per-call commuting lifted over histories; offset arithmetic of "
+                                   "the exclusive encoding by induction, reusing the C04 / C05 bijection theorems) + "
+                                   "side-by-side twin differential runs on the real wrappers",
+        note=NOTE + " C06 specifically: the deep-copy clause (wrapping never alters the wrapped simulation's own agents "
+             "or spaces) and the object-identity half of the `unwrapped` clause are RUNTIME-ONLY: aliasing cannot be "
+             "exhibited in a pure functional model, so they are checked on the real objects of every twin pair by "
+             "snapshot comparison (repr and structural equality of the spaces, null points, ids, object identity of "
+             "sim.agents / every agent / every space before wrapping, after wrapping and after stepping; `wrapper.unwrapped "
+             "is innermost` for every wrapper of every stack) and reported as VIOLATION when they fail; there is no "
+             "theorem behind them beyond unwrapped_innermost on the modelled chain. Real simulations the model does not "
+             "contain (MultiCorridor, SuperAgentWrapper / CommunicationHandshakeWrapper underneath the wrapper under "
+             "test, attack actors) enter the model through the twin's returned values: there the model's prediction is the "
+             "right-hand side of the per-call commuting theorem evaluated on the twin's outcome."),
 }
 
 PENDING = {
